@@ -344,6 +344,14 @@ func wedged(be backend, opts pubsub.BrokerOptions, backlog int, call string, cal
 // has returned and the subscriber keeps reading the last message of the burst
 // is delivered, and the broker still works for a message published afterwards.
 func lossy(capacity, m int, parallel bool) vs.Scenario {
+	return lossyBackend("lifo", capacity, m, parallel)
+}
+
+// lossyBackend: kind "lifo" (Force pushes keep the newest message) or
+// "queue-hard" (a Queue at its hard limit drops the NEW message): in both
+// cases every Publish returns, and once the burst is over a further message
+// is delivered - a broker that sheds load does not stall.
+func lossyBackend(kind string, capacity, m int, parallel bool) vs.Scenario {
 	return func() (func(), func(*vs.End) (string, string)) {
 		var got []int
 		quiet1, quiet2 := false, false
@@ -351,7 +359,16 @@ func lossy(capacity, m int, parallel bool) vs.Scenario {
 		body := func() {
 			parent, cancelParent := context.WithCancel(context.Background())
 			sctx, cancelSub := context.WithCancel(context.Background())
-			b := pubsub.NewLIFOBroker[int](parent, pubsub.BrokerOptions{ParallelDispatch: parallel}, capacity)
+			var b *pubsub.Broker[int]
+			if kind == "lifo" {
+				b = pubsub.NewLIFOBroker[int](parent, pubsub.BrokerOptions{ParallelDispatch: parallel}, capacity)
+			} else {
+				q, err := pubsub.NewQueue[int](pubsub.QueueOptions{HardLimit: capacity, SoftQuota: capacity})
+				if err != nil {
+					panic(err)
+				}
+				b = pubsub.NewQueueBroker(parent, q, pubsub.BrokerOptions{ParallelDispatch: parallel})
+			}
 			fin := make(chan struct{}, 2)
 			subscribe(sctx, b, &got, fin)
 			go func() {
@@ -381,8 +398,8 @@ func lossy(capacity, m int, parallel bool) vs.Scenario {
 			return false
 		}
 		check := func(e *vs.End) (string, string) {
-			where := fmt.Sprintf("lifo(capacity=%d) burst=%d parallel=%v", capacity, m, parallel)
-			if quiet1 && !has(at1, m) {
+			where := fmt.Sprintf("%s(capacity=%d) burst=%d parallel=%v", kind, capacity, m, parallel)
+			if quiet1 && kind == "lifo" && !has(at1, m) {
 				return "stalled-with-undelivered-message", where + fmt.Sprintf(": at quiescence the newest message %d had not been delivered (got %v)", m, at1)
 			}
 			if quiet2 && !has(at2, 99) {
@@ -495,6 +512,7 @@ func build(tier string) ([]runner.Instance, time.Duration) {
 					continue
 				}
 				out = append(out, runner.Instance{Group: "lossy/lifo", Name: fmt.Sprintf("lossy/lifo/capacity=%d,m=%d,par=%v", capacity, m, par), Bound: bound, Scenario: lossy(capacity, m, par)})
+				out = append(out, runner.Instance{Group: "lossy/queue-hard", Name: fmt.Sprintf("lossy/queue-hard/limit=%d,m=%d,par=%v", capacity, m, par), Bound: bound, Scenario: lossyBackend("queue-hard", capacity, m, par)})
 			}
 		}
 	}
